@@ -327,6 +327,19 @@ func runLeaseScenario(sc leaseScenario) (*leaseSys, bool) {
 			contender.locker.Unlock()
 			s.log(map[string]any{"e": "unlocked", "p": 2})
 		}
+	case "longhold":
+		// the DEFAULT lease of the provider (10 s) and leases beyond it: held for two thirds of a lease period (the first
+		// renewal falls into it), the record must be there all along; then released, and free
+		observe(t0+13*ttl/20, true)
+		s.log(map[string]any{"e": "rel", "p": 1})
+		holder.locker.Unlock()
+		s.log(map[string]any{"e": "unlocked", "p": 1})
+		observe(s.now()+ttl/20, false)
+		ok := contender.locker.TryLock(context.Background())
+		s.log(map[string]any{"e": "freetry", "p": 2, "ok": ok})
+		if ok {
+			contender.locker.Unlock()
+		}
 	case "unlockrace":
 		// Unlock lands around the instant a renewal fires (ttl/2 after the last one)
 		observe(t0+int64(sc.Periods)*ttl/2-ttl/8, true)
@@ -775,6 +788,11 @@ func driveLease(opt *Options) error {
 	default:
 		// a long tenure: dozens of renewals in a row (quick: 30 lease periods of 200 ms; thorough: 60 of 150 ms)
 		scs = append(scs, leaseScenario{Kind: "hold", TTL: ttls[0], Periods: map[bool]int{false: 30, true: 60}[opt.Extra["tier"] == "thorough"]})
+		scs = append(scs, leaseScenario{Kind: "longhold", TTL: 10 * time.Second, Phase: 2})
+		if opt.Extra["tier"] == "thorough" {
+			scs = append(scs, leaseScenario{Kind: "longhold", TTL: 30 * time.Second, Phase: 2})
+			scs = append(scs, leaseScenario{Kind: "longhold", TTL: 4 * time.Second, Phase: 2})
+		}
 		for _, ttl := range ttls {
 			scs = append(scs, leaseScenario{Kind: "hold", TTL: ttl, Periods: 6 + rnd.Intn(6)})
 			for k := 1; k <= 5; k++ {
